@@ -272,6 +272,59 @@ def x_frame(T, api, ending, fire=False, skip=False, nonblocking=False):
     cover("frame-" + outcomes[-1])
 
 
+def x_reconnect(T, gaveup):
+    """an arbitrary T-byte frame-phase stream, then end of stream (or silence: the application gives up after a timeout); the
+    application calls connect() again on the SAME object; the new connection delivers a text frame and a binary frame: both
+    receive calls return results consistent with THOSE bytes - no internal error, nothing of the first stream lingers"""
+    quiet_logging()
+    from websocket._exceptions import (WebSocketConnectionClosedException, WebSocketPayloadException,
+                                       WebSocketProtocolException, WebSocketTimeoutException)
+    from .c03 import HandshakeSock
+    from .envpatch import EnvPatch
+    stream = sx.sym_bytes("s", T)
+    data = sx.sym_bytes("d", 2)
+    ep = EnvPatch()
+    ep.urandom(lambda k: bytes(range(k)))
+    try:
+        ws = new_ws(None)
+        ws.settimeout(5)
+        ws.connect("ws://example.test/a", socket=HandshakeSock(stream, [], ()))
+        if gaveup == "timeout":
+            ws.sock.incoming = [c for c in ws.sock.incoming if not (isinstance(c, str) and c == "eof")] + ["timeout", "eof"]
+        for attempt in range(T + 3):
+            sx.tick()
+            try:
+                ws.recv_data(True)
+            except WebSocketTimeoutException:
+                break
+            except (WebSocketConnectionClosedException, WebSocketProtocolException, WebSocketPayloadException):
+                break
+            except (sx.Control, sx.ConcreteFailure, sx.ReplayMismatch):
+                raise
+            except Spin:
+                sx.require(False, "the call spins on a transport that has reported end of stream", T=T)
+                return
+            except Exception as e:
+                sx.require(False, "internal error %s escapes from recv_data" % type(e).__name__, T=T)
+                return
+        second = HandshakeSock(server_frame(1, 1, b"hi") + server_frame(1, 2, data), [], ())
+        try:
+            ws.connect("ws://example.test/a", socket=second)
+            r1 = ws.recv_data(True)
+            r2 = ws.recv_data(True)
+        except (sx.Control, sx.ConcreteFailure, sx.ReplayMismatch):
+            raise
+        except Exception as e:
+            sx.require(False, "after connect() on the same object: %s for a valid stream" % type(e).__name__, T=T, gaveup=gaveup)
+            return
+    finally:
+        ep.restore()
+    sx.require(sx.And(r1[0] == 1, r1[1] == b"hi", r2[0] == 2, r2[1] == data),
+               "after connect() on the same object the results are the frames of the new byte stream, whatever the old one ended with", T=T, gaveup=gaveup)
+    _check_reqs(second, "frame phase after reconnect")
+    cover("reconnected")
+
+
 def x_declared(form, api):
     """a frame header declaring an arbitrary 16-/64-bit length, then a few bytes, then silence: the reads must stay capped"""
     quiet_logging()
@@ -340,6 +393,10 @@ def obligations(tier):
                    bounds="EVERY frame-phase stream of 0..%d bytes followed by end of stream or silence, through recv / recv_data / recv_data_frame" % (8 if thorough else 6),
                    must_cover=["frame-closed", "frame-rejected"], budget_s=3000,
                    kernel=["WebSocket.recv", "recv_data", "recv_data_frame", "frame_buffer.*", "ABNF.validate", "continuous_frame.*", "_socket.recv"]),
+        Obligation("X-reconnect", x_reconnect, [dict(T=t, gaveup=g) for t in range(0, (7 if thorough else 5)) for g in ("eof", "timeout")],
+                   bounds="EVERY frame-phase stream of 0..%d bytes ended by end of stream or by a timeout the application gives up on; connect() again on the "
+                          "same object; then a text and a binary frame (2 symbolic bytes)" % (6 if thorough else 4), must_cover=["reconnected"], budget_s=1800,
+                   kernel=["WebSocket.connect (receive-state reset)", "frame_buffer.recv_strict / recv_header / recv_length / recv_mask", "recv_data"]),
         Obligation("X-resume", x_resume, [dict(form=f, masked=m) for f in (16, 64) for m in (0, 1)],
                    bounds="16-/64-bit length frames with one receive timeout (silence) after every possible number of header bytes, then the rest",
                    must_cover=["resumed"], kernel=["frame_buffer.recv_frame", "recv_length", "recv_mask"]),
